@@ -415,6 +415,23 @@ pub fn run(ctx: &Ctx) {
         // value-equal and neighbouring pairs whose scales differ by 10^4 .. 10^6: the only inputs on which the
         // float estimate of floor(gap * log2 10) in the early-out decides (it must never be too large)
         let gaps: Vec<u64> = t.pick(vec![10_000, 30_103, 100_000], vec![10_000, 16_384, 30_103, 65_536, 100_000, 262_144, 301_030, 1_000_000]);
+        // plus the gaps at which an estimate of g*log2(10) is most fragile: those whose product has the smallest fractional part (the
+        // denominators of the convergents and semi-convergents of log2 10: 21306, 97879, 119185, 195758, ...), computed here in exact
+        // integer arithmetic from 45 decimals of log2 10, and the ones with the largest fractional part
+        let mut gaps = gaps;
+        {
+            let l = BigUint::parse_bytes(b"3321928094887362347870319429489390175864831393", 10).unwrap(); // log2(10) * 10^45
+            let one = BigUint::from(10u8).pow(45);
+            let hi = t.pick(250_000u64, 1_000_000);
+            let mut fr: Vec<(BigUint, u64)> = (10_000..=hi).map(|g| ((&l * BigUint::from(g)) % &one, g)).collect();
+            fr.sort();
+            let k = t.pick(4usize, 12);
+            for (_, g) in fr.iter().take(k).chain(fr.iter().rev().take(k / 2)) {
+                if !gaps.contains(g) {
+                    gaps.push(*g);
+                }
+            }
+        }
         let mut cases = Vec::new();
         for (gi, g) in gaps.iter().enumerate() {
             let xs: &[&str] = t.pick(&["1", "9", "18446744073709551615"], &["1", "3", "9", "18446744073709551615", "340282366920938463463374607431768211456"]);
@@ -429,7 +446,7 @@ pub fn run(ctx: &Ctx) {
         let cases: Vec<BigGap> = if ctx.flavour == "chk" { cases.into_iter().filter(|c| c.gap <= 30_103).collect() } else { cases };
         // (enumerated, not listed: the cases are independent and the large ones take seconds each, so they are spread over the threads)
         let total = cases.len() as u64;
-        ctx.enumerated("huge-gaps", "biggap", total, true, "EXHAUSTIVE over the listed tuples: x vs x*10^g (twin, +1, -1) for g from 10^4 to 10^6 (quick: 10^5), x in {1, 3, 9, 2^64-1, 2^128} (quick: 1, 9, 2^64-1): scale gaps far beyond the sweep", move |i| cases.get(i as usize).cloned(), check_biggap);
+        ctx.enumerated("huge-gaps", "biggap", total, true, "EXHAUSTIVE over the listed tuples: x vs x*10^g (twin, +1, -1) for g from 10^4 to 10^6 (quick: 10^5) and for the gaps up to 10^6 (quick: 250000) whose g*log2(10) is closest to an integer from above (12; quick 4) and from below (6; quick 2), x in {1, 3, 9, 2^64-1, 2^128} (quick: 1, 9, 2^64-1): scale gaps far beyond the sweep", move |i| cases.get(i as usize).cloned(), check_biggap);
     }
     let max_len = t.pick(300usize, 3000);
     let n = t.pick(200_000u64, 2_000_000);
